@@ -104,7 +104,7 @@ PROPS["C16"] = dict(engine="E16", level="exploration",
    level_text="Seeded exploration of (handler speed x close moment x creation time x typed/untyped); recording handler with enter/exit stamps: OnInitialize at most once and first, with one of the cache states between readiness and the call; callbacks 1:1 with the events published after NewMonitor returned (same type, same object pointer, same order); never two at once; none begins after Done(); none at all if the publisher stops before readiness.",
    design_ref="DESIGN.md 5.16", technique="runtime monitoring: recording monitor handler (call log, overlap counter, Done probe) vs the known published sequence and cache-state history")
 
-PROPS["C15"] = dict(engine="E3", level="exploration",
+PROPS["C15"] = dict(engine="E3", level="exploration", harness_race_is_violation=(r"engines\.e3(Big)?Case", "race-on-returned-slice"),
    rule="many short concurrent histories on the real cache actor (no virtual time: real parallelism, GOMAXPROCS in {2,4,8,16}): 1-2 writers issuing 10-40 writes each (generation-stamped full lists via sync/refilter with fresh, globally increasing versions, single create/update/delete events; never duplicates or malformed versions, so the sequential model is deterministic) and 1-8 readers issuing List/Get; every call stamped from one atomic counter before invoking and after the reply. Plus 'big' histories: 24 relists/refilters of 130/257/300/1000 objects alternating between distinguishable complete states (same keys with new versions, or disjoint key sets) with 2-6 readers spinning on List(): every snapshot must be exactly one complete state, not older than the last completed one, and never go backwards. distinct = distinct history descriptor; non-trivial = the history was checked by porcupine (result Ok or Illegal, not Unknown).",
    assumptions=["sequential specification = reference model R-cache restricted to its deterministic zone; a delete event's payload object is not compared", "race freedom claim covers the executions run; collaborators in this engine share no state (logger without shared state, pure filters)", "porcupine timeout 60 s per history => inconclusive"],
    floors={"any": {"histories": 300, "linearizable": 300, "reads": 30000}},
